@@ -16,7 +16,7 @@ grep '^fixed:' known-findings.txt | while read -r _ prop commit rest; do
     git -C $W revert --abort >/dev/null 2>&1; git -C $W checkout -q -- . ; echo "FIXED $p $commit: cannot be reverted cleanly on the current tree (later fixes touch the same lines) - skipped"
     git -C /repo worktree remove --force $W; continue
   fi
-  VERIF_REPO=$W VERIF_BUILD_SUFFIX=.fixed_$commit ./verif check $p > /tmp/sc/fixed_$commit.log 2>&1; rc=$?
+  VERIF_REPO=$W VERIF_BUILD_SUFFIX=.fixed_$commit ./verif check $p > /tmp/sc/fixed_$commit.log 2>&1 < /dev/null; rc=$?
   echo "FIXED $p $commit: check on the tree without this fix -> exit $rc; $(grep -c '^VIOLATION' /tmp/sc/fixed_$commit.log) violation line(s): $(grep '^VIOLATION' /tmp/sc/fixed_$commit.log | head -1 | sed 's/.*obligation=//' | cut -c1-120)"
   git -C /verif checkout -- evidence/$p.json 2>/dev/null
   git -C /repo worktree remove --force $W
